@@ -34,24 +34,26 @@ theorem C03_faithful (cfg : Cfg) (dict : Lookup) (bs : Bytes) (m : Msg)
 consistent carriable message with known command code, application id and dictionary-typed AVPs nested no deeper
 than the decoder's limit is accepted and decoded to exactly that message - whatever the padding octets and
 reserved bits contain. -/
-theorem C03_accepts (cfg : Cfg) (dict : Lookup) (m : Msg) (body : Bytes) (hg : m.Good) (hh : m.HeaderOk)
+theorem C03_accepts (cfg : Cfg) (hf : cfg.tables.Fit) (dict : Lookup) (m : Msg) (body : Bytes) (hg : m.Good)
+    (hh : m.HeaderOk cfg.tables)
     (hty : TypedList dict m.avps) (h24 : m.length < 16777216) (hd : depthList m.avps ≤ cfg.limit)
     (hbl : body.length = (maskList m.avps).length)
     (hbody : applyMask body (maskList m.avps) = encodeAvps (absList m.avps)) :
     decMsg cfg dict (m.hdrBytes ++ body) = .ok m := by
-  refine decMsg_rt cfg dict m body hg.cons hg.wf hty hg.len h24 hh.cmd hh.app (cmdKnown_lt hh.cmd)
-    (appKnown_lt hh.app) hd hbl ?_
+  refine decMsg_rt cfg dict m body hg.cons hg.wf hty hg.len h24 hh.cmd hh.app (Tables.cmd_lt hf hh.cmd)
+    (Tables.app_lt hf hh.app) hd hbl ?_
   rw [hbody]
   exact encList_spec m.avps hg.wf hg.cons
 
 /-- two frames that differ only in padding octets and reserved bits decode to the same message -/
-theorem C03_noise_irrelevant (cfg : Cfg) (dict : Lookup) (m : Msg) (body body' : Bytes) (hg : m.Good)
-    (hh : m.HeaderOk) (hty : TypedList dict m.avps) (h24 : m.length < 16777216) (hd : depthList m.avps ≤ cfg.limit)
+theorem C03_noise_irrelevant (cfg : Cfg) (hf : cfg.tables.Fit) (dict : Lookup) (m : Msg) (body body' : Bytes)
+    (hg : m.Good) (hh : m.HeaderOk cfg.tables) (hty : TypedList dict m.avps) (h24 : m.length < 16777216) (hd : depthList m.avps ≤ cfg.limit)
     (hbl : body.length = (maskList m.avps).length) (hbl' : body'.length = (maskList m.avps).length)
     (hbody : applyMask body (maskList m.avps) = encodeAvps (absList m.avps))
     (hbody' : applyMask body' (maskList m.avps) = encodeAvps (absList m.avps)) :
     decMsg cfg dict (m.hdrBytes ++ body) = decMsg cfg dict (m.hdrBytes ++ body') := by
-  rw [C03_accepts cfg dict m body hg hh hty h24 hd hbl hbody, C03_accepts cfg dict m body' hg hh hty h24 hd hbl' hbody']
+  rw [C03_accepts cfg hf dict m body hg hh hty h24 hd hbl hbody,
+    C03_accepts cfg hf dict m body' hg hh hty h24 hd hbl' hbody']
 
 /-- a decoder that is lenient for no type (the configuration probed from the code when finding F1 is absent) never
 returns a fixed-size value under a lying length: for it the hypothesis `NoLieList` of `C03_faithful` is vacuous -/
@@ -72,7 +74,7 @@ theorem C03_faithful_strict (cfg : Cfg) (dict : Lookup) (hs : ∀ t d, cfg.lenie
 every AVP is the one its exact (code, vendor) entry declares), nests within the limit, and carries a known command
 code and application id -/
 theorem C03_typed (cfg : Cfg) (dict : Lookup) (bs : Bytes) (m : Msg) (h : decMsg cfg dict bs = .ok m) :
-    TypedList dict m.avps ∧ depthList m.avps ≤ cfg.limit ∧ m.HeaderOk :=
+    TypedList dict m.avps ∧ depthList m.avps ≤ cfg.limit ∧ m.HeaderOk cfg.tables :=
   let ⟨t1, t2, t3, t4⟩ := decMsg_typed cfg dict bs m h
   ⟨t1, t2, ⟨t3, t4⟩⟩
 
@@ -86,29 +88,32 @@ exactly the size of `Spec.encode s`, and equals it on every significant octet an
 independent RFC 6733 reader extracts from those octets -/
 theorem C03_sound (cfg : Cfg) (dict : Lookup) (bs : Bytes) (m : Msg)
     (h : decMsg cfg dict bs = .ok m) (hlen : bs.length = m.length) (hnl : NoLieList m.avps) :
-    Parses dict bs m.abs :=
+    Parses cfg.tables dict bs m.abs :=
   decMsg_parses cfg dict bs m h hlen hnl
 
 /-- **completeness**: every well-formed frame whose command code, application id and AVPs are known to the library
 and dictionary, nested within the limit, is accepted - whatever its padding octets and reserved bits contain - and the
 message returned has exactly the content the reader extracts -/
-theorem C03_complete (cfg : Cfg) (dict : Lookup) (bs : Bytes) (s : SMsg) (hp : Parses dict bs s)
+theorem C03_complete (cfg : Cfg) (hf : cfg.tables.Fit) (dict : Lookup) (bs : Bytes) (s : SMsg)
+    (hp : Parses cfg.tables dict bs s)
     (hd : depthAvps s.avps ≤ cfg.limit) : ∃ m, decMsg cfg dict bs = .ok m ∧ m.abs = s :=
-  ⟨s.conc, decMsg_of_parses cfg dict bs s hp hd⟩
+  ⟨s.conc, decMsg_of_parses cfg dict bs s hf hp hd⟩
 
 /-- **uniqueness**: the octets determine the message (so "the message an independent reader extracts" is well defined) -/
-theorem C03_unique (dict : Lookup) (bs : Bytes) (s s' : SMsg) (h : Parses dict bs s) (h' : Parses dict bs s') : s = s' :=
-  parses_unique dict bs s s' h h'
+theorem C03_unique (T : Tables) (hf : T.Fit) (dict : Lookup) (bs : Bytes) (s s' : SMsg) (h : Parses T dict bs s)
+    (h' : Parses T dict bs s') : s = s' :=
+  parses_unique T hf dict bs s s' h h'
 
 /-- the strict reader the check uses as its run-time oracle returns `s` exactly when the frame parses as `s` -/
-theorem C03_read_correct (dict : Lookup) (bs : Bytes) (s : SMsg) : Spec.read dict bs = some s ↔ Parses dict bs s :=
-  read_correct dict bs s
+theorem C03_read_correct (T : Tables) (hf : T.Fit) (dict : Lookup) (bs : Bytes) (s : SMsg) :
+    Spec.read T dict bs = some s ↔ Parses T dict bs s :=
+  read_correct T hf dict bs s
 
 /-- rejection of inconsistent frames, as a consequence: a frame (of its declared size) that does not parse as anything -
 lying length fields, wrong fixed-size values, unknown address families, malformed UTF-8, group boundaries that do not
 add up - is not accepted by a strict decoder -/
 theorem C03_rejects_unparsable (cfg : Cfg) (dict : Lookup) (hs : ∀ t d, cfg.lenient t d = false) (bs : Bytes)
-    (hno : ∀ s, ¬ Parses dict bs s) (m : Msg) (hlen : bs.length = m.length) : decMsg cfg dict bs ≠ .ok m := by
+    (hno : ∀ s, ¬ Parses cfg.tables dict bs s) (m : Msg) (hlen : bs.length = m.length) : decMsg cfg dict bs ≠ .ok m := by
   intro h
   exact hno m.abs (decMsg_parses cfg dict bs m h hlen (decMsg_strict cfg dict hs bs m h))
 
@@ -116,10 +121,10 @@ theorem C03_rejects_unparsable (cfg : Cfg) (dict : Lookup) (hs : ∀ t d, cfg.le
 (as any `s`, within the nesting limit) is a legitimate argument of the `decode` operation of a construction history
 (`OpOk`), under every leniency: it is accepted, the message has the frame's size and contains no length lie - so
 the history can go on extending it and C01/C02 keep applying. -/
-theorem C03_parsed_frames_in_domain (cfg : Cfg) (s0 : MState) (bs : Bytes) (s : SMsg)
-    (hp : Parses s0.dict.lookup bs s) (hd : depthAvps s.avps ≤ cfg.limit) : OpOk cfg s0 (.decode bs) := by
+theorem C03_parsed_frames_in_domain (cfg : Cfg) (hf : cfg.tables.Fit) (s0 : MState) (bs : Bytes) (s : SMsg)
+    (hp : Parses cfg.tables s0.dict.lookup bs s) (hd : depthAvps s.avps ≤ cfg.limit) : OpOk cfg s0 (.decode bs) := by
   intro m hm
-  obtain ⟨hdec, _⟩ := decMsg_of_parses cfg s0.dict.lookup bs s hp hd
+  obtain ⟨hdec, _⟩ := decMsg_of_parses cfg s0.dict.lookup bs s hf hp hd
   rw [hdec] at hm
   have hm' : s.conc = m := by injection hm
   subst hm'
@@ -143,7 +148,7 @@ theorem C03_utf8_is_rfc3629 (bs : Bytes) :
 
 /-! ### finding F1: the full statement fails for the lenient configuration the code has today -/
 
-def lenientAll : Cfg := ⟨fun _ _ => true, 32⟩
+def lenientAll : Cfg := ⟨fun _ _ => true, 32, {}⟩
 /-- the dictionary of the witness: AVP 415 (CC-Request-Number) is an Unsigned32 -/
 def dict415 : Lookup := fun c v => if c = 415 ∧ v = none then .unsigned32 else .unknown
 /-- 36 octets: a CCR whose only AVP, an Unsigned32, declares 16 octets instead of 12 -/
@@ -164,7 +169,7 @@ theorem C03_lenient_witness :
 
 /-- while the strict reader refuses it -/
 theorem C03_strict_refuses_witness :
-    decSummary (decMsg ⟨fun _ _ => false, 32⟩ dict415 witnessF1) = none := by
+    decSummary (decMsg ⟨fun _ _ => false, 32, {}⟩ dict415 witnessF1) = none := by
   decide
 
 end Dia
